@@ -39,8 +39,10 @@ for tier in ('quick',):
         img, t = c20.make_image(case, 0)
         r = c20.ell_radius(c20.frame_of(case)['shape'], t)
         o = np.argsort(r.ravel())
-        check(np.all(np.diff(img.ravel()[o]) <= 0), 'image monotone in r_ell')
-        check(np.isfinite(img).all() and (img > 0).all(), 'image finite positive')
+        check(np.all(np.diff(img.ravel()[o].astype(float)) <= 0), 'image monotone in r_ell')
+        check(np.isfinite(img).all() and ((img > 0).all() or (case['dtype'] in c20.INT_MAX and (img >= 0).all())), 'image finite positive')
+        if case['dtype'] != 'f8':      # model metric below is for float64 images
+            continue
         # model metric: the image itself has zero excess, a one-pixel shift has not (steep galaxies)
         ex, _, n, nbad = c20.model_excess(img, case, t, 6.0, 25.0)
         check(ex == 0.0 and nbad == 0 and n > 100, 'model_excess(image) == 0')
@@ -76,7 +78,7 @@ check(abs(c20.pa_diff(0.001, math.pi - 0.001) - 0.002) < 1e-12, 'pa_diff mod pi'
 check(c20.same_angle(1e-13, 2 * math.pi - 1e-13, 1e-12) and not c20.same_angle(0.5, 0.5 + 1e-9, 1e-12), 'same_angle')
 
 # 6. lattice sizes are what the module documents
-check(len(c20.enumerate_cases('quick')) == 316 and len(c20.enumerate_cases('thorough')) == 3392, 'lattice sizes')
+check(len(c20.enumerate_cases('quick')) == 344 and len(c20.enumerate_cases('thorough')) == 3632, 'lattice sizes')
 
 # 7. start of the sequence: sma0 keyword overrides geometry.sma; growth clause accepts exactly the documented sequence
 for growth in c20.GROWTH_START:
@@ -128,6 +130,37 @@ for name, case in c20.enumerate_cases('quick'):
         t = c20.truth_geometry(case, 0)
         n = sum(1 for v in c20.expected_smas(case) if c20.well_sampled(v, case, t) and c20.area_integrated(v, case, t))
         check(n >= 4, f'area block: {n} area-integrated isophotes expected')
+
+# 6. block 'dtype': the image of every dtype holds exactly the values of its float64 twin, integer counts fit the dtype,
+# the integer galaxy is the analytic one to half a count, and every integer fit of an area mode has area-integrated
+# isophotes whose 7-pixel sector sum exceeds the dtype's range (so a sum kept in the pixel dtype would wrap)
+for tier in ('quick', 'thorough'):
+    seen = set()
+    for name, case in c20.enumerate_cases(tier):
+        if case['frame'] == 'large' and case['size'] == 2.5 and case['init'] == 'shape':
+            seen.add((case['dtype'], case['mode']))      # thorough: the f8 mean / median points belong to the block 'area'
+        if name != 'dtype':
+            check(case['dtype'] == 'f8', 'dtype axis only in its block')
+            continue
+        if tier == 'thorough' and (case['pa_deg'], case['cen']) != (120, 'int'):
+            continue
+        img, t = c20.make_image(case, 1)
+        twin, _ = c20.make_image(case, 1, as_float64=True)
+        check(img.dtype == np.dtype(case['dtype']) and twin.dtype == np.float64 and twin.dtype.isnative, 'dtypes')
+        check(np.array_equal(img.astype(np.float64), twin), 'twin holds the same stored values')
+        exact = t['amp'] * c20.radial(case['law'], c20.ell_radius(img.shape, t), case['size'])
+        if case['dtype'] in c20.INT_MAX:
+            check(twin.max() <= c20.INT_MAX[case['dtype']] and twin.min() >= 0 and np.abs(twin - exact).max() <= 0.5,
+                  'integer counts fit the dtype, rounded to the nearest count')
+            check(twin.max() >= 0.8 * c20.INT_MAX[case['dtype']], 'peak fills the dtype')
+            if case['mode'] in c20.AREA_MODE:
+                n = sum(1 for v in c20.expected_smas(case) if c20.well_sampled(v, case, t)
+                        and c20.area_integrated(v, case, t) and c20.sector_sum_beyond_dtype(v, case, t))
+                check(n >= 3, f'dtype block: {n} isophotes with sector sums beyond the dtype')
+        else:
+            check(np.abs(twin - exact).max() <= 1e-7 * exact.max(), 'float image = analytic galaxy to float32 rounding')
+    want = c20.DTYPE if tier == 'thorough' else c20.DTYPE[:7]
+    check(seen == {(d, m) for d in want for m in c20.MODE_ALL}, 'dtype x integrmode product complete')
 
 if fail:
     print('FAIL', sorted(set(fail)))
